@@ -335,7 +335,10 @@ def packet_write(text):
             if m: order.append(m.group(1)); continue
             if st == 'self.write_header(out)?;': order.append('header'); continue
             if st == 'if let Some(rr)=self.header.opt_rr(){rr.write_to(out)?;}': order.append('opt'); continue
-            if st in ('out.flush()?;', 'Ok(())', 'let start=out.stream_position()?;', 'let out=&mut MessageWriter{inner:out,start};',
+            # the final flush is part of the contract (a writer that defers its work - BufWriter - holds the whole message
+            # until then): it is recorded as the last step, and `packet_write_order` demands it
+            if st == 'out.flush()?;': order.append('flush'); continue
+            if st in ('Ok(())', 'let start=out.stream_position()?;', 'let out=&mut MessageWriter{inner:out,start};',
                       'let mut name_refs=HashMap::new();'): continue
             refuse(W, f"fn {fn}: unrecognised statement: {st[:160]}")
         out[fn] = order
